@@ -24,7 +24,10 @@ RULE = (
     "closure passed to a run-once helper (aligned_case_arm); or deeper calls that cover every leaf of an inlined child. Paths that exist "
     "only in the alignment pass (mode == Align) are not emission paths. The table EXCEPT lists the children deliberately not written, "
     "one reason each. R3 the helpers accepted in R2 visit every node-typed parameter on every path. R4 the token sink: process_token "
-    "pushes the token's own interned text and passes every comment of x.comments to the renderer."
+    "pushes the token's own interned text and passes every comment of x.comments to the renderer. R5 comments reach the tree: every generated "
+    "token type with a `comments` field is converted to a VerylToken by an impl that splits and keeps them, and COMMENT_REGEX (the splitter) "
+    "matches whole every comment the scanner's CommentsTerm (veryl.par) accepts - compared exhaustively on all strings up to length 7 over the "
+    "five characters the two patterns distinguish."
 )
 
 CRATES = ["veryl_parser", "veryl_formatter"]
@@ -193,6 +196,11 @@ def run(world, tier, info, only=None):
               "aligned_case_arm calls its closure exactly once on every path")
     else:
         ck.missing("R2", p)
+    ntk = walk.token_conversion_obligations(ck, "R5", w, "veryl_parser")
+    ck.floor("R5", "tokens that may carry comments", ntk, 120)
+    import rxagree
+    import os
+    rxagree.check(ck, "R5", w, "veryl_parser", "parser", os.environ.get("VERIF_REPO", "/repo"))
     # ---------------- R4 token sink ---------------------------------------------------------------------------
     s = w.fns[F + "process_token"]
     g = Fn(w.mir(F + "process_token"))
